@@ -255,6 +255,17 @@ def constraints_case(ck, sg, st, SymmetryConstraints):
 
 
 def custom_symbols_check(scs, pos, tol):
+    # a query must not change the object: pruned formulas first, then the full ones again
+    try:
+        before = [dict(d) for d in scs.positionFormulas()]
+        scs.positionFormulasPruned()
+        scs.UFormulasPruned()
+        after = [dict(d) for d in scs.positionFormulas()]
+    except Exception as e:
+        return "formula queries raised %r" % (e,)
+    if before != after:
+        i = [k for k in range(len(before)) if before[k] != after[k]][0]
+        return "positionFormulas()[%d] is %r before and %r after calling positionFormulasPruned()" % (i, before[i], after[i])
     syms = scs.posparSymbols()
     custom = ["pA%d" % i for i in range(len(syms))]
     if not custom:
